@@ -27,6 +27,8 @@ SITE_KIND = {
     "clt_pong": "pongAll", "clt_pop": "L", "clt_call": "cb", "sel_select": "select", "sel_pong": "pongAll",
     "sel_empty": "Queue.empty", "sel_get": "Queue.get",
 }
+REPAIRED = {"if self._locked is None or self._locked is False:": "if not self._locked:"}      # = HandoffSites.repaired
+FALSY_KEY = "lock:falsy-task:lock granted while another holder has not released"
 HUBRACE_KEY = "hubrace:a task parked in the threaded hub is queued twice (hub thread's _return vs schedule())"
 TIMEOUT_LIMIT = 8
 MAX_STEPS = 6000
@@ -122,7 +124,7 @@ class C07(Check):
                     for text, ln in sts: rows.setdefault((qual, ln), {"acts": {}, "tags": set()})["tags"].add("?")
                     continue
                 for (text, ln), it in zip(sts, items):
-                    if it["text"] != text:
+                    if it["text"] != text and REPAIRED.get(text) != it["text"]:
                         rows.setdefault((qual, ln), {"acts": {}, "tags": set()})["tags"].add("?"); continue
                     ent = rows.setdefault((qual, ln), {"acts": {}, "tags": set()})
                     ent["tags"].add(it["tag"])
@@ -156,6 +158,13 @@ class C07(Check):
                 cases.append({"kind": "threads", "threaded": threaded, "users": b["users"], "progs": b["progs"],
                               "sched": {"type": "preempt", "points": []}})
         cases += self.burst_cases([1, 2, 1023, 1024, 1025])
+        # task objects that are falsy (a Task subclass with __len__/__bool__): `if not self._locked` takes a lock held by such a
+        # task for free.  Exercised when the code carries the repair (fixes/C07-2_lock_falsy_holder.diff) or the finding is listed.
+        fixed = any(t in REPAIRED for rel, qual, sts, span in self.extract for t, ln in sts)
+        if fixed or _listed(self.id, "lock:falsy-task:"):
+            hold = [["acq", 0, 1], ["yield"], ["rel", 0]]
+            cases += [{"kind": "lock", "init": [0, 0], "progs": [hold, hold], "extrel": 0, "falsy": 1},
+                      {"kind": "lock", "init": [0, 0], "progs": [hold, [["acq", 0, 0], ["yield"]], hold], "extrel": 0, "falsy": 1}]
         if common.Findings().match(self.id, HUBRACE_KEY):
             # the reproduction of schedule_hub_race_defect on the real classes; exercised (and reported as KNOWN-FINDING) once the
             # finding is listed in known_findings.json — until then it is available through `--replay corpus/C07/hubrace.json`
@@ -602,10 +611,16 @@ class C07(Check):
                 h = l._locked
                 hd = None if not h else ("flag" if h is True else h.idx)
                 return hd, sorted(t.idx for t in l._waiting)
+            falsy = bool(case.get("falsy"))
             class T(recoco.BaseTask):
                 def __init__(self, idx, prog):
                     self.idx, self.prog = idx, prog
                     recoco.BaseTask.__init__(self)
+                def __len__(self):                       # falsy variant: a task that is also an empty container
+                    if falsy: return 0
+                    raise TypeError("object of type 'T' has no len()")
+                def __bool__(self):
+                    return not falsy
                 def run(self):
                     for op in self.prog:
                         if op[0] == "acq":
@@ -957,6 +972,7 @@ class C07(Check):
 
     def finding_key(self, case, obs, failure):
         if case["kind"] == "hubrace" and obs.get("dup_ready_at_steps"): return HUBRACE_KEY
+        if case["kind"] == "lock" and case.get("falsy"): return "lock:falsy-task:" + failure.split(":")[0][:70]
         return "%s:%s" % (case["kind"], failure.split(":")[0][:70])
 
     def nontrivial(self, case, obs):
@@ -1082,7 +1098,23 @@ class C07(Check):
                    "select returns every readable descriptor; os.read on the empty blocking pinger pipe blocks; pongAll drains up to 1024 bytes",
                    "tasks handed to schedule() are not simultaneously parked in the select hub; a task does not schedule itself",
                    "cooperative Lock: a task only releases a lock it was handed (same contract as threading.Lock)",
+                   "cooperative Lock: task objects are truthy — `if not self._locked` tests the holder task's truthiness; a Task subclass with "
+                   "a falsy __len__/__bool__ breaks exclusion on the unrepaired code (checked on the real code; repair fixes/C07-2_lock_falsy_holder.diff)",
+                   "cooperative Lock model is sequential and not connected to the scheduler model: the woken waiter's fast_schedule and its "
+                   "`rv = True` are checked on the real Scheduler by the lock correspondence (`scheduled == [woken]`), not proved",
                    "assert statements are live (no -O); the scheduler is the default scheduler (BaseTask.start uses defaultScheduler)"]
+
+
+def _listed(prop, key_prefix):
+    """is a finding of this property whose key starts with the prefix listed in known_findings.json (open or fixed)?"""
+    try:
+        d = json.load(open(os.path.join(common.VERIF, "known_findings.json")))
+    except Exception:
+        return False
+    for f in d.get("findings", []) + d.get("fixed", []):
+        if f.get("property") == prop and (str(f.get("key", "")).startswith(key_prefix) or key_prefix in str(f.get("key_regex", ""))):
+            return True
+    return False
 
 
 class _Stub:
